@@ -967,6 +967,9 @@ def _validate_matrix(matrix: np.ndarray, max_conn_mat: np.ndarray, src_node_sett
                 return False
             elif override_ok == 1:
                 continue
+        elif src_n_override.shape[1] > 0 and src_n_override[i, 0] != -1:
+            # Nr of connections beyond the overridden nrs of connections
+            return False
         if not _check_conns(n_src, src_node_settings[i, :], max_src[i]):
             return False
 
@@ -979,6 +982,9 @@ def _validate_matrix(matrix: np.ndarray, max_conn_mat: np.ndarray, src_node_sett
                 return False
             elif override_ok == 1:
                 continue
+        elif tgt_n_override.shape[1] > 0 and tgt_n_override[i, 0] != -1:
+            # Nr of connections beyond the overridden nrs of connections
+            return False
         if not _check_conns(n_tgt, tgt_node_settings[i, :], max_tgt[i]):
             return False
 
